@@ -23,6 +23,11 @@ EVENTS = {
           ['B1', 'B2'], 'valid'),
     'NB': (['dtype', 'NB', [['N1', 1], ['B1', -1]], None, None],
            ['N1', 'B1'], 'valid'),
+    'F': (['dtype', 'F', [['B2', -1]], 'f0', None], ['B2'], 'valid'),
+    'vdup': (['unit', 'V', 'vdup', ['scaled', 'F:50/3', 'x0/y0']], ['V'],
+             'valid'),
+    'n1/x1': (['unit', 'NB', 'n1/x1', ['derive', ['n1', 'x1']]],
+              ['NB', 'n1', 'x1'], 'valid'),
     'x1': (['unit', 'B1', 'x1', ['scaled', 'i:1000', 'x0']], ['B1'], 'valid'),
     'x2': (['unit', 'B1', 'x2', ['scaled', 'D:0.0254', 'x1']], ['x1'],
            'valid'),
